@@ -45,7 +45,7 @@ PROPS = {
     "C07": {
         "title": "Buffer space is conserved and never over- or under-flows",
         "lean": ["TopsimProps.C07", "TopsimProofs.Bridge.BufferArith", "TopsimProofs.Bridge.TierArith", "TopsimProofs.Bridge.Sched", "TopsimProofs.Bridge.Admission", "TopsimProps.C07Traj", "TopsimProps.C07Freed"],
-        "streams": [("default", 32, 500), ("sequential", 16, 200), ("overcommit", 8, 60), ("edge", 40, 400), ("hotwait", 8, 100), ("tiering", 8, 100), ("tierback", 8, 100)],
+        "streams": [("default", 32, 500), ("sequential", 16, 200), ("overcommit", 8, 60), ("edge", 40, 400), ("hotwait", 8, 100), ("tiering", 8, 100), ("tierback", 8, 100), ("fracunits", 12, 150)],
         "direct": ["c18"],
         "monitor": ["C07"],
     },
@@ -78,7 +78,7 @@ PROPS = {
     "C12": {
         "title": "The per-timestep table reports the true state, one row per step",
         "lean": ["TopsimProps.C12", "TopsimProps.SysSafety", "TopsimProps.Pause", "TopsimProps.C12Traj"],
-        "streams": [("default", 32, 500), ("overlap", 16, 300), ("runlevel", 16, 300), ("tierback", 12, 200), ("tiering", 8, 150), ("units", 6, 80), ("big", 4, 60)],
+        "streams": [("default", 32, 500), ("overlap", 16, 300), ("runlevel", 16, 300), ("tierback", 12, 200), ("tiering", 8, 150), ("units", 6, 80), ("big", 4, 60), ("edge", 22, 200)],
         "direct": ["c11"],
         "monitor": ["C12"],
     },
@@ -124,7 +124,7 @@ PROPS = {
     },
     "C19": {
         "title": "Idle/empty/finished queries tell the truth",
-        "lean": ["TopsimProps.C19", "TopsimProofs.Bridge.Queries"],
+        "lean": ["TopsimProps.C19", "TopsimProofs.Bridge.Queries", "TopsimProps.C19Windows"],
         "streams": [("default", 24, 300), ("chaotic", 12, 200), ("clusterops", 20, 400), ("tiering", 10, 150), ("tierback", 8, 100), ("shutdown", 12, 150), ("edge", 22, 200), ("fracunits", 12, 150)],
         "monitor": ["C19"],
     },
